@@ -1,6 +1,135 @@
+(** C20 property theorems.  [parse_response] / [parse_stream] are the independent HTTP/1.1 response parser of
+    Model.v part 1; [respond] / [run_conn] / [step] are the model of Request + HTTPChannel (part 2, with the
+    reason phrase sanitised as in fixes/C20-sanitise-reason-phrase.patch); [responses] is ANY table of default
+    reason phrases.  All statements hold for every byte value in N (a superset of 0..255), every number and
+    length of calls, writes and pipelined requests. *)
 From Coq Require Import List NArith Bool.
 From TwLib Require Import HttpRespBytes.
-From C20 Require Import Model.
-Theorem placeholder_partial : forall l r, no_crlf l = true -> take_line (l ++ 13%N :: 10%N :: r) = Some (l, r).
-Proof. exact take_line_app. Qed.
-Print Assumptions placeholder_partial.
+From C20 Require Import Model ProofsParse ProofsTable Proofs ProofsMain.
+Import ListNotations.
+Local Open Scope N_scope.
+
+(** For every request = any sequence of setResponseCode / setRawHeaders / addRawHeader / removeHeader / addCookie
+    calls (arbitrary names, values, reasons, cookies; bytes or str) followed by any sequence of writes and
+    finish, by an application that frames consistently (status 200-999; a declared Content-Length is the number
+    of bytes written; no Transfer-Encoding of its own on a non-chunked response): the bytes emitted, followed by
+    ANY further bytes [rest], parse as exactly the expected response (status, sanitised reason, the header
+    table as set with OWS-trimmed values, body = concatenation of the writes) and leave exactly [rest];
+    a close-delimited response is the case rest = []. *)
+Theorem response_parses_to_exactly_one : forall (responses : N -> bytes) (q : request) (rest : bytes),
+  forallb (fun o => negb (is_write o)) (q_pre q) = true /\
+  200 <= s_code (q_state responses q) <= 999 /\
+  frames_consistently (q_cfg q) (q_state responses q) (q_ws q) ->
+  (self_delimited (q_expected responses q) = false -> rest = []) ->
+  parse_response (is_head (q_cfg q)) (fst (respond responses (q_cfg q) (q_pre q ++ map Write (q_ws q))) ++ rest)
+  = Some (expected (q_cfg q) (q_state responses q) (q_ws q), rest).
+Proof. exact request_parses. Qed.
+Print Assumptions response_parses_to_exactly_one.
+
+(** a whole connection: any number of pipelined requests; the byte stream parses as exactly one response per
+    answered request, in order, with nothing left over (no response splitting, no interleaving) *)
+Theorem connection_parses_to_exactly_the_responses : forall (responses : N -> bytes) (qs : list request),
+  Forall (req_ok responses) qs ->
+  parse_stream (map (fun q => is_head (q_cfg q)) (answered qs))
+               (fst (fst (run_conn responses (map (fun q => (q_cfg q, q_pre q ++ map Write (q_ws q))) qs))))
+  = Some (map (q_expected responses) (answered qs)).
+Proof. exact connection_parses. Qed.
+Print Assumptions connection_parses_to_exactly_the_responses.
+
+(** HEAD requests and 204 / 304 responses: the head is all that is emitted (no body byte, no chunk terminator)
+    and the recipient sees an empty body *)
+Theorem no_body_for_HEAD_204_304 : forall c s ws,
+  is_head c || nobody_code (s_code s) = true ->
+  wire c s ws = head_of c s /\ r_body (expected c s ws) = [] /\ r_framing (expected c s ws) = FNone.
+Proof. exact muted_wire. Qed.
+Print Assumptions no_body_for_HEAD_204_304.
+
+(** framing is consistent with the connection: a response delimited by close is only sent when the connection
+    is then closed; the transport is closed exactly when some answered request was not persistent *)
+Theorem framing_consistent : forall (responses : N -> bytes),
+  (forall c s ws, self_delimited (expected c s ws) = false -> persistent c = false) /\
+  (forall qs, snd (run_conn responses (map (fun q => (q_cfg q, q_pre q ++ map Write (q_ws q))) qs))
+              = existsb (fun q => negb (persistent (q_cfg q))) qs).
+Proof. intro responses. split; [exact close_delimited_not_persistent|exact (run_conn_closed responses)]. Qed.
+Print Assumptions framing_consistent.
+
+(** invariant over EVERY history of API calls (writes included, in any order): header names are unique canonical
+    tokens - in particular Content-Length / Transfer-Encoding exist under one spelling only - and no stored
+    value contains CR or LF *)
+Theorem header_table_invariant : forall (responses : N -> bytes) c ops,
+  let t := s_tbl (fst (run_ops responses c (init c) ops)) in
+  NoDup (map fst t) /\
+  Forall (fun e => (is_token (fst e) = true /\
+                    (map lower (fst e) = cl_lname -> fst e = CL_NAME) /\
+                    (map lower (fst e) = te_lname -> fst e = TE_NAME)) /\
+                   Forall (fun v => no_crlf v = true) (snd e)) t.
+Proof. intros responses c ops. exact (run_ops_inv responses c ops (init c) (init_inv c)). Qed.
+Print Assumptions header_table_invariant.
+
+(** invalid names are refused when set, and a refused call has no effect *)
+Theorem invalid_header_name_refused : forall (responses : N -> bytes) c s name vals,
+  (match name with TB b => is_token b | TS l => is_token l end) = false ->
+  exists e, step responses c s (SetRaw name vals) = (s, OErr e).
+Proof. exact invalid_name_refused. Qed.
+Print Assumptions invalid_header_name_refused.
+
+(** exactly the headers set: setRawHeaders replaces the values of that (canonical) name by the sanitised values
+    and touches no other name; addRawHeader appends one sanitised value *)
+Theorem headers_exactly_those_set : forall (responses : N -> bytes) c s name,
+  NoDup (map fst (s_tbl s)) /\ Forall entry_ok (s_tbl s) ->
+  forall k, enc_name name = Good k ->
+  (forall vals vs, enc_values vals = Good vs ->
+     let s' := fst (step responses c s (SetRaw name vals)) in
+     tbl_get k (s_tbl s') = vs /\ forall k', beq k' k = false -> tbl_get k' (s_tbl s') = tbl_get k' (s_tbl s)) /\
+  (forall val v, enc_value val = Good v ->
+     let s' := fst (step responses c s (AddRaw name val)) in
+     tbl_get k (s_tbl s') = tbl_get k (s_tbl s) ++ [san v] /\
+     forall k', beq k' k = false -> tbl_get k' (s_tbl s') = tbl_get k' (s_tbl s)).
+Proof.
+  intros responses c s name Hinv k En. split.
+  - intros vals vs Ev. exact (set_then_get responses c s name vals k vs Hinv En Ev).
+  - intros val v Ev. exact (add_then_get responses c s name val k v Hinv En Ev).
+Qed.
+Print Assumptions headers_exactly_those_set.
+
+(** sanitisation: no CR / LF survives in a header value, and no CR / LF / ";" in a cookie component; an accepted
+    cookie is free of CR / LF as a whole; sanitising is idempotent *)
+Theorem sanitised_values_cannot_break_lines :
+  (forall v, no_crlf (san v) = true) /\
+  (forall v, forallb (fun c => negb (is_crlf_byte c) && negb (c =? 59)) (csan v) = true) /\
+  (forall ck b, cookie_bytes ck = Good b -> no_crlf b = true) /\
+  (forall v, san (san v) = san v).
+Proof.
+  repeat split; [exact san_no_crlf|exact csan_clean| |exact san_idem].
+  intros ck b H. pose proof (cookie_bytes_clean ck) as C. rewrite H in C. exact C.
+Qed.
+Print Assumptions sanitised_values_cannot_break_lines.
+
+(** finding F6 (the code before the repair): with the reason phrase copied verbatim, a reason containing CRLF
+    makes the recipient see a header the application never set *)
+Theorem reason_injection_refuted_for_unrepaired_writeHeaders :
+  exists c code reason,
+    parse_response false (emit_head_unrepaired c code reason [] ++ [])
+    = Some (mkResp 1 200 [79; 75] [([88], [121])] FClose [] [], []).
+Proof. exact unrepaired_reason_injects_header. Qed.
+Print Assumptions reason_injection_refuted_for_unrepaired_writeHeaders.
+
+(** the hypotheses are inhabited: a HTTP/1.1 GET answered with a custom status, a header with an embedded CRLF,
+    a cookie and two writes *)
+Example request_example :
+  let q := mkReq (mkCfg true false false)
+                 [SetCode 404 (Some [78; 13; 10; 88]); SetRaw (TB [120; 45; 97]) [TB [118; 13; 10; 119]];
+                  AddCookie (mkCookie (TB [107]) (TB [118; 59; 10]) None None (Some (TB [47])) None None true false None)]
+                 [[104; 105]; []; [33]] in
+  req_ok (fun _ => []) q /\
+  parse_response false (fst (respond (fun _ => []) (q_cfg q) (q_ops q)))
+  = Some (mkResp 1 404 [78; 32; 88]
+                 [([88; 45; 65], [118; 32; 119]);
+                  ([84; 114; 97; 110; 115; 102; 101; 114; 45; 69; 110; 99; 111; 100; 105; 110; 103], chunked_word);
+                  (SC_NAME, [107; 61; 118; 32; 59; 32; 80; 97; 116; 104; 61; 47; 59; 32; 83; 101; 99; 117; 114; 101])]
+                 FChunked [104; 105; 33] [], []).
+Proof.
+  cbv zeta. split.
+  - split; [reflexivity|]. split; [vm_compute; split; discriminate|]. intros _ H. vm_compute in H. discriminate.
+  - vm_compute. reflexivity.
+Qed.
